@@ -7,7 +7,6 @@ package main
 import (
 	"strings"
 
-	"verifh/ev"
 	"verifh/pool"
 )
 
@@ -67,7 +66,7 @@ func authFilter(init []string, ops []string) func(hist []string) []string {
 }
 
 func runOpsCheck(prop, tier string, arg opsArg, ops []string, depth int, rule string) int {
-	run := ev.NewRun(prop, tier, "model_checking")
+	run := newRun(prop, tier, "model_checking")
 	p := pool.New(0)
 	st := bfsPool(run, p, "ops", arg, depth, 0, authFilter(arg.Init, ops))
 	finishBfs(run, st, rule)
